@@ -32,13 +32,14 @@ def hostile_lines(quick: bool) -> list:
             for n in (0, 1, 9):
                 out.append(f"{n};255;4;0;{t};{p}")
     for cmd in (0, 1, 2):
-        for t in (0, 17, 18, 255, 1000, -1):
+        for t in (0, 17, 18, 26, 36, 40, 99, 255, 1000, -1):
             for c in (3, 4, 255):
                 for p in ("", "abc", "é", BIG):
                     for n in (0, 1, 9):
                         out.append(f"{n};{c};{cmd};0;{t};{p}")
     out += ["", "x", "1;2", "1;2;3", "1;2;3;4", "1;2;3;4;5", ";;;;;", "256;0;1;0;0;x", "1;255;1;0;0;x", "1;3;3;0;0;x", "1;3;1;2;0;x",
-            "1;3;1;0;x;p", "1;3;5;0;0;p", "-1;3;1;0;0;p", "1;3;1;0;0;p;q;r", " ", ";", "1;3;1;0;" + BIG * 3 + ";p", "١;٣;١;٠;٠;p", "1.0;3;1;0;0;p", "\x00"]
+            "1;3;1;0;x;p", "1;3;5;0;0;p", "-1;3;1;0;0;p", "1;3;1;0;0;p;q;r", " ", ";", "1;3;1;0;" + BIG * 3 + ";p", "١;٣;١;٠;٠;p", "1.0;3;1;0;0;p", "\x00",
+            "²;3;1;0;0;p", "1;²;1;0;0;p", "1;3;²;0;0;p", "1;3;1;²;0;p", "1;3;1;0;²;p", "1;255;3;0;①;p", "1;3;¹;0;0;p", "1;3;1;0;٣;p", "1;3;1;0;+2;p", "1;3;1;0; 2;p", "1;3;1;0;0x2;p"]
     return out
 
 
@@ -106,6 +107,18 @@ def check_one(version, hist, line) -> list:
             bad(f"foreign-exception:{type(out.exc).__name__}", f"listen() raised {type(out.exc).__name__}: {out.exc}")
     elif out.kind != "yield":
         bad("no-outcome", f"step gave {out.kind}")
+    # whatever an accepted hostile presentation created must not blow up later traffic about it
+    fl = line.split(";")
+    if out.kind == "yield" and len(fl) >= 6 and fl[2] == "0":
+        n_, c_ = fl[0], fl[1]
+        follow = [f"{n_};255;3;0;0;50", f"{n_};255;3;0;11;s", f"{n_};255;4;0;0;fw"]
+        if c_ != "255":
+            follow = [f"{n_};{c_};1;0;2;on", f"{n_};{c_};2;0;2;", f"{n_};{c_};1;0;0;1.5", f"{n_};{c_};1;0;99;z"] + follow
+        for fline in follow:
+            o = s.line(fline)
+            if o.kind == "raise" and not isinstance(o.exc, AIOMySensorsError):
+                bad(f"foreign-exception-later:{type(o.exc).__name__}", f"accepted, but the later line {fline!r} raised {type(o.exc).__name__}: {o.exc}")
+                break
     # the gateway must remain usable
     for f in PROBE:
         o = s.line(R.enc(*f).rstrip("\n"))
